@@ -62,6 +62,8 @@ def count_nested(df, nested, by=None, join=True) -> NestedFrame:
         counts = df[nested].apply(
             lambda x: x[by].value_counts(sort=False) if isinstance(x, pd.DataFrame) else pd.Series(dtype="int64")
         )
+        if not isinstance(counts, pd.DataFrame):  # a frame without rows: apply() returns an empty Series
+            counts = pd.DataFrame(index=df.index)
         counts = counts.rename(columns={colname: f"n_{nested}_{colname}" for colname in counts.columns})
         counts = counts.reindex(sorted(counts.columns), axis=1)
     if join:
